@@ -303,6 +303,8 @@ func (f *Frame) lookupName(name string, at *ssa.BasicBlock, atI ssa.Instruction)
 	var best ssa.Value
 	bestIsCell := false
 	bestDepth := -1
+	var cellBest ssa.Value
+	cellDepth := -1
 	for _, b := range f.fn.Blocks {
 		if !(b == at || b.Dominates(at)) {
 			continue
@@ -335,6 +337,11 @@ func (f *Frame) lookupName(name string, at *ssa.BasicBlock, atI ssa.Instruction)
 				if _, isConst := v.(*ssa.Const); isConst {
 					bound = true
 				}
+				if bound && isCell && d >= cellDepth {
+					// the variable lives in memory: its storage wins over any value read from it earlier
+					cellBest = v
+					cellDepth = d
+				}
 				if bound && d >= bestDepth {
 					best = v
 					bestIsCell = isCell
@@ -342,6 +349,10 @@ func (f *Frame) lookupName(name string, at *ssa.BasicBlock, atI ssa.Instruction)
 				}
 			}
 		}
+	}
+	if cellBest != nil {
+		best = cellBest
+		bestIsCell = true
 	}
 	if best == nil {
 		return Val{}, false
